@@ -15,8 +15,9 @@
 // casts int / int64 / uint64, `x := e`, `if c { ... }` without else, `return e`; for the reorg
 // helpers the three accesses header.Number.Int64(), <status>.BlockNumber and
 // bytes.Equal(header.ParentHash.Bytes(), <status>.BlockHash) become parameters; for GetSyncRanges a
-// single `for x := e; [c]; x += e` whose body consists of `v := e`,
-// `ranges = append(ranges, [2]uint64{a, b})` and `if c { [ranges[len(ranges)-1][1] = e;] break }`,
+// single `for x := e; [c]; x += e` whose body (and, recursively, the body of every `if c { ...; break }`
+// in it) consists of `v := e`, `ranges = append(ranges, [2]uint64{a, b})`,
+// `ranges[len(ranges)-1][1] = e` and such ifs,
 // preceded by `ranges := [][2]uint64{}` and followed by `return ranges`.
 package main
 
@@ -309,64 +310,86 @@ func sfSyncRanges(f *ast.File) (string, error) {
 		return bad("unsupported loop post statement")
 	}
 	accN := sfName(acc)
-	var sb strings.Builder
-	closers := 0
-	for _, s := range loop.Body.List {
-		switch x := s.(type) {
+	// body translates a statement list of the loop body; tail is what follows its last statement:
+	// the next iteration at the top level, nothing inside an if (its list must end in break).
+	var bodyErr error
+	var lbody func(ss []ast.Stmt, tail string, ind string) string
+	lbody = func(ss []ast.Stmt, tail string, ind string) string {
+		fail := func(format string, a ...any) string {
+			if bodyErr == nil {
+				bodyErr = fmt.Errorf(format, a...)
+			}
+			return "GenRangesPanic"
+		}
+		if len(ss) == 0 {
+			if tail == "" {
+				return fail("an if in the loop must end in break")
+			}
+			return ind + tail
+		}
+		rest := ss[1:]
+		switch x := ss[0].(type) {
+		case *ast.BranchStmt:
+			if x.Tok != token.BREAK || x.Label != nil || len(rest) != 0 {
+				return fail("unsupported branch statement in the loop")
+			}
+			return ind + "GenRangesDone " + accN
 		case *ast.AssignStmt:
 			if len(x.Lhs) != 1 || len(x.Rhs) != 1 {
-				return bad("unsupported assignment in the loop")
+				return fail("unsupported assignment in the loop")
 			}
 			if x.Tok == token.DEFINE {
 				id, ok := x.Lhs[0].(*ast.Ident)
 				if !ok {
-					return bad("unsupported assignment target in the loop")
+					return fail("unsupported assignment target in the loop")
 				}
 				rhs := t.expr(x.Rhs[0])
 				t.locals[id.Name] = true
-				fmt.Fprintf(&sb, "      let %s := %s in\n", sfName(id.Name), rhs)
-				continue
+				return ind + "let " + sfName(id.Name) + " := " + rhs + " in\n" + lbody(rest, tail, ind)
+			}
+			if x.Tok != token.ASSIGN {
+				return fail("unsupported assignment in the loop")
+			}
+			// ranges[len(ranges)-1][1] = e
+			if sfText(x.Lhs[0]) == acc+"[len("+acc+")-1][1]" {
+				return ind + "match gen_set_last_snd " + accN + " " + t.expr(x.Rhs[0]) + " with\n" +
+					ind + "| Some " + accN + " =>\n" + lbody(rest, tail, ind+"    ") + "\n" +
+					ind + "| None => GenRangesPanic\n" + ind + "end"
 			}
 			// ranges = append(ranges, [2]uint64{a, b})
 			call, ok := x.Rhs[0].(*ast.CallExpr)
-			if x.Tok != token.ASSIGN || sfText(x.Lhs[0]) != acc || !ok || sfText(call.Fun) != "append" || len(call.Args) != 2 || sfText(call.Args[0]) != acc {
-				return bad("unsupported assignment in the loop: %s", sfText(x.Lhs[0]))
+			if sfText(x.Lhs[0]) != acc || !ok || sfText(call.Fun) != "append" || len(call.Args) != 2 || sfText(call.Args[0]) != acc {
+				return fail("unsupported assignment in the loop: %s", sfText(x.Lhs[0]))
 			}
 			cl, ok := call.Args[1].(*ast.CompositeLit)
 			if !ok || len(cl.Elts) != 2 {
-				return bad("append of something that is not a pair")
+				return fail("append of something that is not a pair")
 			}
-			fmt.Fprintf(&sb, "      let %s := %s ++ [(%s, %s)] in\n", accN, accN, t.expr(cl.Elts[0]), t.expr(cl.Elts[1]))
+			return ind + "let " + accN + " := " + accN + " ++ [(" + t.expr(cl.Elts[0]) + ", " + t.expr(cl.Elts[1]) + ")] in\n" + lbody(rest, tail, ind)
 		case *ast.IfStmt:
 			if x.Init != nil || x.Else != nil {
-				return bad("unsupported if form in the loop")
-			}
-			bl := x.Body.List
-			if len(bl) == 0 {
-				return bad("empty if body in the loop")
-			}
-			if br, ok := bl[len(bl)-1].(*ast.BranchStmt); !ok || br.Tok != token.BREAK || br.Label != nil {
-				return bad("an if in the loop must end in break")
+				return fail("unsupported if form in the loop")
 			}
 			c := t.expr(x.Cond)
-			switch len(bl) {
-			case 1:
-				fmt.Fprintf(&sb, "      if %s then GenRangesDone %s else\n", c, accN)
-			case 2:
-				// ranges[len(ranges)-1][1] = e
-				set, ok := bl[0].(*ast.AssignStmt)
-				want := acc + "[len(" + acc + ")-1][1]"
-				if !ok || set.Tok != token.ASSIGN || len(set.Lhs) != 1 || sfText(set.Lhs[0]) != want {
-					return bad("unsupported statement before break")
-				}
-				fmt.Fprintf(&sb, "      if %s then (match gen_set_last_snd %s %s with Some r => GenRangesDone r | None => GenRangesPanic end) else\n", c, accN, t.expr(set.Rhs[0]))
-			default:
-				return bad("unsupported if body in the loop")
+			// the locals of the branch are not visible after it
+			saved := map[string]bool{}
+			for k, v := range t.locals {
+				saved[k] = v
 			}
-			closers++
-		default:
-			return bad("unsupported statement %T in the loop", s)
+			thenS := lbody(x.Body.List, "", ind+"    ")
+			t.locals = saved
+			return ind + "if " + c + " then (\n" + thenS + "\n" + ind + ") else (\n" + lbody(rest, tail, ind+"    ") + "\n" + ind + ")"
 		}
+		return fail("unsupported statement %T in the loop", ss[0])
+	}
+	pn0 := make([]string, len(ps))
+	for i, p := range ps {
+		pn0[i] = sfName(p)
+	}
+	next := "gen_get_sync_ranges_loop fuel' " + post + " " + accN + " " + strings.Join(pn0, " ")
+	bodyS := lbody(loop.Body.List, next, "        ")
+	if bodyErr != nil {
+		return bad("%v", bodyErr)
 	}
 	if t.err != nil {
 		return "", fmt.Errorf(goName+": %v", t.err)
@@ -378,10 +401,9 @@ func sfSyncRanges(f *ast.File) (string, error) {
 	var out strings.Builder
 	fmt.Fprintf(&out, "Fixpoint gen_get_sync_ranges_loop (fuel : nat) (%s : Z) (%s : list (Z * Z)) (%s : Z) : gen_ranges_outcome :=\n", sfName(iv), accN, strings.Join(pn, " "))
 	out.WriteString("  match fuel with\n  | O => GenRangesOutOfFuel\n  | S fuel' =>\n")
-	fmt.Fprintf(&out, "      if %s then\n", cond)
-	out.WriteString(sb.String())
-	fmt.Fprintf(&out, "      gen_get_sync_ranges_loop fuel' %s %s %s\n", post, accN, strings.Join(pn, " "))
-	fmt.Fprintf(&out, "      else GenRangesDone %s\n  end.\n\n", accN)
+	fmt.Fprintf(&out, "      if %s then (\n", cond)
+	out.WriteString(bodyS)
+	fmt.Fprintf(&out, "\n      ) else GenRangesDone %s\n  end.\n\n", accN)
 	fmt.Fprintf(&out, "Definition gen_get_sync_ranges (fuel : nat) (%s : Z) : gen_ranges_outcome :=\n  gen_get_sync_ranges_loop fuel %s [] %s.\n", strings.Join(pn, " "), initE, strings.Join(pn, " "))
 	return out.String(), nil
 }
